@@ -142,16 +142,21 @@ func c10ReuseTypes() []reuseType {
 		[]byte{0x03, 0x52, 0x07, 0x80, 0x21}, []byte{0x06}, []byte{0x02, 0x14, 0x03}, []byte{0x03, 0x00, 0x00, 0x00, 0x00}, []byte{0x09, 0x2D}, []byte{0x09, 0x00})
 	fh := [][]byte{
 		{4, 3, 2, 1, 0x80, 0x34, 0x12}, {4, 3, 2, 1, 0x03, 0x01, 0x00, 0x02, 0x04, 0x08}, {0xFF, 0xFF, 0xFF, 0xFF, 0xF0, 0xFF, 0xFF}, {0, 0, 0, 0, 0, 0, 0}, {1, 2, 3},
+		{8, 7, 6, 5, 0x02, 0x09, 0x00, 0x06, 0x0D}, // a second header with FOpts (other length, other bytes)
 	}
 	add("lorawan.FHDR", func() interface{} { return &lorawan.FHDR{} }, func(v interface{}, b []byte) error { return v.(*lorawan.FHDR).UnmarshalBinary(true, b) }, fh...)
 	mpl := [][]byte{
+		{8, 7, 6, 5, 0x02, 0x09, 0x00, 0x06, 0x0D, 0x05, 0x11, 0x22}, // (first, so that it is among the data frames of the PHYPayload alphabet)
 		{4, 3, 2, 1, 0x80, 0x34, 0x12}, {4, 3, 2, 1, 0x03, 0x01, 0x00, 0x02, 0x04, 0x08, 0x0A, 0xDE, 0xAD}, {4, 3, 2, 1, 0x00, 0x01, 0x00, 0x00, 0x02}, {4, 3, 2, 1, 0x00, 0x01, 0x00, 0x07}, {9, 9, 9},
 	}
 	add("lorawan.MACPayload", func() interface{} { return &lorawan.MACPayload{} }, func(v interface{}, b []byte) error { return v.(*lorawan.MACPayload).UnmarshalBinary(true, b) }, mpl...)
 	var phys [][]byte
-	for _, m := range mpl[:4] {
+	for _, m := range mpl[:5] {
 		phys = append(phys, append(append([]byte{0x40}, m...), 1, 2, 3, 4))
 	}
+	// a second frame of every kind that is not a data frame (pairs of one kind in the reuse / kept-copy histories)
+	phys = append(phys, append(append([]byte{0x00}, fillBytes(18, 0x15)...), 9, 8, 7, 6), append(append([]byte{0x20}, fillBytes(12, 0x16)...), 9, 8, 7, 6),
+		append(append([]byte{0xC0, 0x01}, fillBytes(18, 0x17)...), 9, 8, 7, 6), append(append([]byte{0xC0, 0x00}, fillBytes(13, 0x18)...), 9, 8, 7, 6), append(append([]byte{0xC0, 0x02}, fillBytes(13, 0x19)...), 9, 8, 7, 6))
 	phys = append(phys, append(append([]byte{0x00}, fillBytes(18, 5)...), 1, 2, 3, 4), append(append([]byte{0x20}, fillBytes(12, 6)...), 1, 2, 3, 4),
 		append(append([]byte{0xC0, 0x01}, fillBytes(18, 7)...), 1, 2, 3, 4), []byte{0xE0, 1, 2, 3, 4, 5, 6}, []byte{0x40, 1, 2})
 	add("lorawan.PHYPayload", func() interface{} { return &lorawan.PHYPayload{} }, func(v interface{}, b []byte) error { return v.(*lorawan.PHYPayload).UnmarshalBinary(b) }, phys...)
@@ -767,6 +772,9 @@ func runC10(r *engine.Run) {
 			c.Outcome("reuse/compared")
 		})
 	}
+
+	// ---- (c') copies of decoded values kept while their variable receives the next input
+	keptCopyParts(r, "kept-copy", types)
 
 	// ---- (d) band instances
 	cfgs := allBandCfgs(false)
